@@ -352,13 +352,13 @@ def deferred_fetch_layer(ctx):
                                          % (opener, order, k, got[:200], fresh[k][:200]), meta={'order': order})
                     return
     # a loop over one result that executes another statement per row
-    outer = conn.execute('SELECT i FROM #t ORDER BY i')
+    outer = conn.execute('SELECT i FROM #t WHERE i IS NOT NULL ORDER BY i')
     seen = []
     for (i,) in outer:
         inner = conn.execute('SELECT count(*) AS n FROM #t WHERE i <= %s', (i,)).fetchall()
         seen.append((i, inner))
     want = [(r[0], conn.execute('SELECT count(*) AS n FROM #t WHERE i <= %s', (r[0],)).fetchall())
-            for r in impl.connection([table]).execute('SELECT i FROM #t ORDER BY i').fetchall()]
+            for r in impl.connection([table]).execute('SELECT i FROM #t WHERE i IS NOT NULL ORDER BY i').fetchall()]
     ctx.evaluations += 1
     if seen != want:
         ctx.record_violation('history-dependent-result', 'loop over a result executing per row: %r, expected %r' % (seen, want))
